@@ -60,7 +60,10 @@ def build_harness():
         if not os.path.exists(ct) or open(ct).read() != tmpl:
             open(ct, "w").write(tmpl)
         # the repository's own lock file pins every third-party crate to what is in the offline cache
-        shutil.copyfile(os.path.join(REPO, "Cargo.lock"), os.path.join(HARNESS, "Cargo.lock"))
+        for cand in (os.path.join(REPO, "Cargo.lock"), "/repo/Cargo.lock", os.path.join(HARNESS, "Cargo.lock.base")):
+            if os.path.exists(cand):
+                shutil.copyfile(cand, os.path.join(HARNESS, "Cargo.lock"))
+                break
         t0 = time.time()
         p = subprocess.run(["cargo", "build", "--offline", "--quiet"], cwd=HARNESS, env=cargo_env(),
                            stdout=subprocess.PIPE, stderr=subprocess.STDOUT, text=True)
